@@ -16,8 +16,13 @@ BOUNDS = {
         "omitempty chosen per member, object at top level / inside an array / as a member value, namespace disabled (as the struct marshaler "
         "does) or active (with duplicate-name probe). unwname: 2 keys of 1 symbolic byte. pool: the pooled streaming encoder (getStreamingEncoder/putStreamingEncoder, "
         "as two MarshalWrite calls use it) reused after a first use that stopped at a failed/short Write; sync.Pool modelled as LIFO. "
-        "OUTSIDE: json.Marshal/MarshalWrite/MarshalEncode of typed Go values (reflection-driven; not executable by the engine) - the claim is "
-        "established for the token-level Encoder they are built on, not for them; AppendRaw; capacities above 16 and outputs longer than ~40 bytes; "
+        "typed: json.MarshalWrite to a *bytes.Buffer and to another writer, and two json.MarshalEncode calls on an Encoder over either writer kind, "
+        "deliver exactly json.Marshal's bytes (plus the newline per top-level value) for 13 value shapes (empty and 1-entry maps, empty slice/array, "
+        "struct with omitempty/omitzero members present or retracted, the same struct padded so that the retractions fall around the 75% threshold of the "
+        "4 KiB pooled buffer, []any, string, nil pointer, empty struct, empty map[string]any / []any, nested empty map) with 1 symbolic string byte, "
+        "under default options (Deterministic and Multiline for 4 shapes); a first Write that accepts 0-3 bytes and fails makes MarshalWrite return the "
+        "error having delivered a prefix of Marshal's bytes. "
+        "OUTSIDE: other Go types and option sets for the typed entry points; AppendRaw; capacities above 16 and outputs longer than ~40 bytes; "
         "longer sequences; more than 2 write faults; writers that return n>len(p) or n<len(p) without error; indent strings other than one tab."
     ),
     "thorough": (
@@ -145,4 +150,16 @@ def obligations(tier):
     only = os.environ.get("C07_ONLY")
     if only:
         L = [o for o in L if any(x in o["id"] for x in only.split(","))]  # development aid
+    # typed entry points (reflect environment): MarshalWrite / MarshalEncode vs Marshal
+    for shape in range(13):
+        for mode in range(5):
+            L.append(ob("typed/shape=%d/mode=%d/opt=0" % (shape, mode), ".", "VerifC07Typed", [shape, 1, mode, 0], covers=["checked"]))
+    for shape in (1, 3, 4, 9):
+        for mode in (1, 3):
+            for opt in (1, 2):
+                L.append(ob("typed/shape=%d/mode=%d/opt=%d" % (shape, mode, opt), ".", "VerifC07Typed", [shape, 1, mode, opt], covers=["checked"]))
+    if tier != "quick":
+        for shape in (1, 3, 4, 5):
+            for mode in range(5):
+                L.append(ob("typed/shape=%d/n=2/mode=%d/opt=0" % (shape, mode), ".", "VerifC07Typed", [shape, 2, mode, 0], covers=["checked"]))
     return L
